@@ -667,7 +667,9 @@ func (f *fileConfig) Reload(opts ...ReloadedConfigDataOption) error {
 
 	// reread the configs
 	cfg, err := newFileConfig(f.opts, newData.configs, newData.rules)
-	if err != nil {
+	// as at startup, only a nil config is fatal; a non-nil config with an
+	// error carries warnings only and is acceptable
+	if cfg == nil {
 		return err
 	}
 
